@@ -42,7 +42,7 @@ type rbInfo struct {
 }
 
 func resolveRB(p *Prog, r *Report) *rbInfo {
-	rb := &rbInfo{typ: p.Named("roundrobin", "Rebalancer"), rec: p.Named("roundrobin", "rbServer")}
+	rb := &rbInfo{typ: p.Named("roundrobin", "Rebalancer"), rec: namedRole(p, "roundrobin", "rbServer")}
 	if rb.typ == nil || rb.rec == nil {
 		r.Anchor("C10.R0", "roundrobin.Rebalancer / rbServer", "types not found")
 		return nil
